@@ -545,6 +545,51 @@ static void c18_dump(const std::string& in, const std::string& out) {
   fclose(fi); fclose(fo);
 }
 
+// --------------------------------------------------------------------------- C18 (the day the processors APPLY)
+// The resolver's (month, day) only matters through the transition the processors schedule with it. For every case
+// (year, month, dow, dom, expected month, expected day) read from --in, a one-era zone at UTC+0 is built in memory whose
+// policy switches to +1:00 "on <expression> in <month> at 12:00" and back half a year later; the basic and the extended
+// processor must both report standard time one second before 12:00 of the calendar's day and +1:00 at 12:00.
+template <typename ZR, typename ZP, typename ZE, typename ZI, typename ZC, typename PROC>
+static void c18_apply_one(const char* which, int16_t year, uint8_t month, uint8_t dow, int8_t dom, uint8_t em, uint8_t ed, int8_t ruleDelta, int8_t eraDelta) {
+  uint8_t back = (uint8_t) (((month - 1 + 6) % 12) + 1);
+  ZR rules[2] = {
+    {-126, 126, month, dow, dom, 48, ZC::kSuffixW, (int8_t) (ruleDelta + 4), 'D'},
+    {-126, 126, back, 0, 15, 48, ZC::kSuffixW, ruleDelta, 'S'},
+  };
+  ZP policy = {rules, nullptr, 2, 0};
+  ZE eras[1] = {{&policy, "T%T", 0, eraDelta, 127, 1, 1, 0, ZC::kSuffixW}};
+  static const ZC ctx = {2000, 2050, "verif"};
+  ZI info = {"Test/C18", 0x1234, &ctx, 4, 1, eras};
+  PROC proc;
+  TimeZone tz = TimeZone::forZoneInfo(&info, &proc);
+  acetime_t at = LocalDateTime::forComponents(year, em, ed, 12, 0, 0).toEpochSeconds();
+  int before = tz.getDeltaOffset(at - 1).toMinutes(), after = tz.getDeltaOffset(at).toMinutes();
+  int dayBefore = tz.getDeltaOffset(at - 86400).toMinutes(), dayAfter = tz.getDeltaOffset(at + 86400).toMinutes();
+  CNT.add("c18.applied_cases");
+  if (before != 0 || after != 60 || dayBefore != 0 || dayAfter != 60) {
+    J j; j.str("processor", which).num("year", year).num("month", month).num("dow", dow).num("dom", dom).num("calendar_month", em).num("calendar_day", ed)
+      .num("dst_1s_before_noon", before).num("dst_at_noon", after).num("dst_a_day_before", dayBefore).num("dst_a_day_after", dayAfter);
+    witness("c18:processor-applies-rule-on-another-day", "a processor does not switch at 12:00 of the calendar's (month, day) for a rule ON expression", j);
+  }
+}
+
+static void c18_apply(const std::string& in, int shard, int n) {
+  FILE* fi = fopen(in.c_str(), "rb");
+  if (!fi) { fprintf(stderr, "c18apply: cannot open file\n"); exit(3); }
+  struct __attribute__((packed)) Case { int16_t year; uint8_t month; uint8_t dow; int8_t dom; uint8_t em; uint8_t ed; };
+  Case c;
+  long i = 0;
+  while (fread(&c, sizeof c, 1, fi) == 1) {
+    if (i++ % n != shard) continue;
+    c18_apply_one<basic::ZoneRule, basic::ZonePolicy, basic::ZoneEra, basic::ZoneInfo, basic::ZoneContext, BasicZoneProcessor>(
+        "basic", c.year, c.month, c.dow, c.dom, c.em, c.ed, 0, 0);
+    c18_apply_one<extended::ZoneRule, extended::ZonePolicy, extended::ZoneEra, extended::ZoneInfo, extended::ZoneContext, ExtendedZoneProcessor>(
+        "extended", c.year, c.month, c.dow, c.dom, c.em, c.ed, 4, 4);
+  }
+  fclose(fi);
+}
+
 int main(int argc, char** argv) {
   Args a(argc, argv);
   std::string mode = a.get("mode");
@@ -555,6 +600,7 @@ int main(int argc, char** argv) {
   else if (mode == "c17") c17();
   else if (mode == "c15") { if (shard == 0) c15(a.num("seed", 0)); else c15_zones(); }
   else if (mode == "c18") c18_dump(a.get("in"), a.get("out"));
+  else if (mode == "c18apply") c18_apply(a.get("in"), shard, n);
   else { fprintf(stderr, "unknown mode\n"); return 3; }
   CNT.flush();
   return 0;
